@@ -133,6 +133,23 @@ CORPUS = [
     Cfg("alignedvarying", [("p", "u8", 1), ("v", "f32", 16), ("p", "u32", 8)]),
     Cfg("c02witness", [("p", "u64", 8), ("v", "b1", 1), ("p", "b2", 1)]),
     Cfg("nonmono", [("f", "b12", 16), ("p", "u16", 2), ("v", "b3", 4), ("p", "b5", 8)]),
+    # the suite's typedefs (test/utils/typedefs.hpp) and the lists of test-vector-alignment.cpp, type for type
+    Cfg("s-OneVarying", [("p", "u32", 1), ("p", "u64", 8), ("v", "f32", 1)]),
+    Cfg("s-TwoVarying", [("p", "u32", 1), ("p", "u64", 8), ("v", "f32", 1), ("p", "u64", 8), ("v", "f32", 1)]),
+    Cfg("s-OneFixedOneVarying", [("f", "f32", 1), ("p", "u32", 1), ("p", "u64", 8), ("v", "f32", 1)]),
+    Cfg("s-OneFixedUniquePtr", [("f", "t8", 1), ("p", "t8", 1)]),
+    Cfg("s-OneVaryingUniquePtr", [("p", "u64", 8), ("v", "t8", 1), ("p", "t8", 1)]),
+    Cfg("s-PlainAligned", [("p", "u8", 1), ("p", "u32", 8)]),
+    Cfg("s-OneVaryingAligned", [("p", "u64", 8), ("v", "f32", 16), ("p", "u32", 1)]),
+    Cfg("s-TwoVaryingAligned", [("p", "u32", 1), ("p", "u64", 8), ("v", "f32", 8), ("p", "u64", 8), ("v", "f32", 16)]),
+    Cfg("s-TwoFixedAligned", [("f", "f32", 8), ("p", "u32", 16), ("f", "f32", 1)]),
+    Cfg("s-TwoFixedAlignedAlt", [("f", "f32", 32), ("f", "u32", 1), ("p", "u32", 1)]),
+    Cfg("s-align-210", [("p", "u64", 8), ("v", "f32", 16), ("p", "u32", 1), ("f", "b16", 16)]),
+    Cfg("s-align-229", [("p", "u64", 8), ("v", "f64", 8), ("p", "b12", 1), ("p", "f32", 16)]),
+    Cfg("s-align-249", [("p", "f64", 1), ("p", "u64", 8), ("v", "b16", 8), ("p", "b12", 1), ("p", "f32", 16)]),
+    Cfg("s-align-269", [("p", "b16", 1), ("p", "u64", 8), ("v", "b32", 16), ("p", "f32", 32)]),
+    Cfg("s-align-287", [("p", "u64", 8), ("v", "b4", 1), ("p", "b12", 1), ("p", "u64", 8), ("v", "b32", 16), ("p", "f32", 32)]),
+    Cfg("s-align-306", [("p", "f64", 1), ("p", "u64", 8), ("v", "b16", 16), ("p", "f32", 16)]),
     Cfg("trk-fixed", [("p", "u32", 1), ("f", "t12", 1)]),
     Cfg("trk-varying", [("p", "u8", 1), ("v", "t5", 1), ("p", "t8", 4)]),
     Cfg("trk-mixed", [("f", "t12", 16), ("p", "u16", 2), ("v", "b3", 4), ("p", "t5", 8)]),
@@ -519,5 +536,70 @@ def gen_element(rng, cfg, n_ops):
             k = rng.choice(list(eshape))
             lines.append("elemdestroy e%d" % k)
             del eshape[k]
+    lines.append("end")
+    return lines
+
+
+def gen_fault_matrix(rng, cfg):
+    """systematic fault enumeration: for every allocating operation between a small and a large vector (two
+    allocator instances) fail its 1st and its 2nd allocation in turn; then dump, reuse and tear down the operands"""
+    fixed = [rng.choice([1, 2]) for _ in range(cfg.nfixed())]
+    _, pay0, same = gen_elem(rng, cfg, fixed, 3, 10 ** 9)
+
+    def setup():
+        lines = ["tables"]
+        # v0: large (3 elements, capacity 4), allocator 1; v1: small (1 element, capacity 1), allocator 2
+        lines.append("new v0 4 %d %s 1" % (4 * pay0, fixed_text(fixed)))
+        for _ in range(3):
+            lines.append("emplace v0 %s" % gen_elem(rng, cfg, fixed, 3, 10 ** 9, same)[0])
+        lines.append("new v1 1 %d %s 2" % (pay0, fixed_text(fixed)))
+        lines.append("emplace v1 %s" % gen_elem(rng, cfg, fixed, 3, 10 ** 9, same)[0])
+        return lines
+
+    seqs = []
+    ops = ["reserve v0 9 %d" % (9 * pay0), "reserve v1 5 %d" % (5 * pay0), "copy v0 v2", "copy v1 v2", "copyassign v0 v1", "copyassign v1 v0",
+           "moveassign v0 v1", "moveassign v1 v0", "new v3 2 %d %s 1" % (2 * pay0, fixed_text(fixed))]
+    for op in ops:
+        for k in (0, 1):
+            lines = setup()
+            # afterwards every operand must still be usable: dumped, cleared, assigned to (from a fresh vector), destroyed
+            lines += ["failat %d" % k, op, "failoff", "dump v0", "dump v1", "dump v2",
+                      "new v4 2 %d %s 1" % (2 * pay0, fixed_text(fixed)), "emplace v4 %s" % gen_elem(rng, cfg, fixed, 3, 10 ** 9, same)[0],
+                      "clear v1", "dump v1", "copyassign v4 v1", "dump v1", "copyassign v4 v0", "dump v0",
+                      "destroy v0", "destroy v1", "end"]
+            seqs.append(lines)
+    return seqs
+
+
+def gen_tight_fill(rng, cfg, mode):
+    """fill a vector to exactly its declared capacity N and payload budget B (the block is sized for exactly that):
+    every way of splitting B over the elements must fit. mode 0: random split; 1: all spans empty; 2: equal spans with a
+    count that makes the payload a multiple of a power of two; 3: refill after pop/erase"""
+    lines = ["tables"]
+    fixed = [rng.choice([0, 1, 2, 3]) for _ in range(cfg.nfixed())]
+    if not any(p[0] == "p" for p in cfg.params) and sum(fixed) == 0:
+        fixed[0] = 1
+    n = rng.choice([1, 2, 2, 3, 4])
+    elems = []
+    for i in range(n):
+        if mode == 1:
+            same = [0] * 8
+        elif mode == 2:
+            c = rng.choice([2, 4, 8, 16])
+            same = [c] * 8
+        else:
+            same = None
+        text, pay, counts = gen_elem(rng, cfg, fixed, rng.choice([1, 3, 4, 7, 8, 9]), 10 ** 9, same)
+        elems.append((text, pay))
+    budget = sum(p for _, p in elems)
+    lines.append("new v0 %d %d %s 1" % (n, budget, fixed_text(fixed)))
+    for text, _ in elems:
+        lines.append("emplace v0 %s" % text)
+    if mode == 3 and n >= 2:
+        lines.append("pop v0")
+        lines.append("emplace v0 %s" % elems[-1][0])
+        lines.append("erase v0 0")
+        lines.append("emplace v0 %s" % elems[0][0])
+    lines.append("dump v0")
     lines.append("end")
     return lines
